@@ -2,7 +2,7 @@
    (any sequence of BIO calls, results and errors), for every oracle script of the operating system.
    What is NOT proved here: that OpenSSL encrypts and completes handshakes — the engine is an oracle (see DESIGN.md);
    the handshake's progress in driver mode is decided by the correspondence check's liveness monitor (gen/c18.py). *)
-From SP Require Import Base ListAux Os OsLemmas WaitModel WaitLemmas SocketModel Objects DriverModel TlsModel TlsLemmas TlsEmits TlsBracket TlsInterest TlsDrain TlsComplete Sim.
+From SP Require Import Base ListAux Os OsLemmas WaitModel WaitLemmas SocketModel Objects DriverModel TlsModel TlsLemmas TlsEmits TlsBracket TlsInterest TlsDrain TlsBudget TlsComplete Sim.
 Local Open Scope Z_scope.
 
 Local Notation os := (os ext).
@@ -201,6 +201,16 @@ Theorem driver_receive_drains_the_engine : forall run_block fuel k sk (s : os) s
   (exists s0 id s1, tls_buffered_receive_now k (s_rxsize sk) s0 = (Ok (id, 0), s1) /\ precycle (1000 + k) id s1 = (Ok tt, s')).
 Proof. exact TlsDrain.receive_loop_drains. Qed.
 
+(* C07 over TLS (finding F15): after every step of an operation with a limited time-out the remaining budget is what is left until
+   the deadline fixed when the operation began, at the clock reading taken after the step — whatever it was before the step. *)
+Theorem step_budget_is_measured_against_the_operation_deadline :
+  forall A k (fn : Z -> MX A) (s : os) t r s',
+  aget k (x_tls (o_ext s)) = Some t -> 0 < t_rem t ->
+  under_deadline k fn s = (Ok r, s') ->
+  exists t' now', aget k (x_tls (o_ext s')) = Some t' /\
+                  t_rem t' = dl_remaining {| d_now := now'; d_deadline := t_end t |}.
+Proof. exact TlsBudget.step_budget_is_measured_against_the_operation_deadline. Qed.
+
 (* Finding F13 (known, not repaired): the retry loops assert that ten rounds always suffice. In driver mode (and for calls with
    a zero time-out) input that trickles in — ten times in a row the zero-time-out look of BioRead finds nothing and the
    zero-time-out wait of HandleError right after it finds the socket ready — exhausts them: the faithful model reaches
@@ -258,3 +268,4 @@ Print Assumptions known_interest_is_polled.
 Print Assumptions tls_send_complete.
 Print Assumptions read_steps_suffice_refuted.
 Print Assumptions driver_receive_drains_the_engine.
+Print Assumptions step_budget_is_measured_against_the_operation_deadline.
